@@ -42,14 +42,22 @@ ASSUMPTIONS = [
     "key segmentation (events.get_key) is a parameter of the Lean theorems; its own correctness is C03",
     "a scheduled event is deliverable iff when < time.time() (the code's test; 'never before its time' allows delivery from "
     "when on, and with integer ticks a request at exactly when returns None once - not flagged, by decision of the coordinator)",
+    "C08_timeout and the oracle's timeout clause exclude spurious readiness and end-of-file: when select reports the stream "
+    "readable and os.read returns nothing (SIGTSTP via dsusp, EOF on a pipe) the request returns None at once, by design of _send",
+    "only threadsafe_event_trigger wakes a blocked request (by design); events of event_trigger / scheduled_event_trigger fired "
+    "during a blocked request are required only at the next request",
     "a request that would block forever (timeout None, nothing ever arrives) is reported as such by both sides and ends the script",
 ]
-LEVEL_NOTE = ("PARTIAL: proof over a discrete-event model of Input in which thread preemption happens only at select and between "
+LEVEL_NOTE = ("PARTIAL: the theorems are statements about the hand-written model (its own queue discipline), so the weight of the evidence "
+              "is on the correspondence: the deterministic simulation tie (real _send/_wait/find_key/trigger code against a scripted OS, "
+              "thread-safe callbacks stepped through their os.write) plus real-OS scenarios (pty, select, wake-up fd, threads, SIGINT, EOF) "
+              "that feed the ledger oracle. Proof over a discrete-event model of Input in which thread preemption happens only at select and between "
               "requests (GIL atomicity of list operations, signal timing and select fairness are assumptions, named in the evidence); "
-              "D15 (bytes lost when the available bytes end inside a multi-byte keypress) is an open known finding: the byte-ledger "
-              "theorem carries the complementary hypothesis. trusted: Lean kernel + propext/Classical.choice/Quot.sound, the "
-              "hand-written model, the scripted environment of the simulation, extract.py, the wire codec; not proved: the wait-loop fuel "
-              "of the model always suffices (C08_wait_fuel_statement), byte clause of the multi-request ledger with unget_bytes between requests")
+              "D15 / D12 / D35 (bytes lost when find_key raises: truncated keypress, ESC-prefix + high byte, ill-formed UTF-8) are open known "
+              "findings: the byte-ledger theorem carries the complementary hypothesis 'the request does not raise'. trusted: Lean kernel + propext/Classical.choice/Quot.sound, the "
+              "hand-written model, the scripted environment of the simulation, extract.py, the wire codec; the model's loop fuel is "
+              "proved sufficient (C08_no_out_of_fuel); not proved: the byte clause of the multi-request ledger when unget_bytes fires "
+              "between requests or a request raised (the per-request ledger covers both)")
 TRUSTED = ["the scripted environment (harness/props/c08.py class Env) implements the same select/agenda semantics as "
            "Model/Input.lean `select`/`applyEnv` - it is the specification of the outside world, written twice"]
 
@@ -59,6 +67,13 @@ ENC = "UTF-8"
 
 class Deadlock(BaseException):
     """select(timeout=None) with nothing ready and nothing left to happen"""
+
+
+class Livelock(BaseException):
+    """one request called select more often than any correct implementation can (e.g. a trigger pipe that is never drained)"""
+
+
+SELECT_BOUND = 4000
 
 
 class Ev(cevents.Event):
@@ -190,6 +205,7 @@ class Env:
         self.pipes = []            # unread byte counts
         self.ts_calls = []         # per pipe: TsCall objects in start order (thread-safe callbacks in flight)
         self.nonblocking_depth = 0
+        self.selects = 0           # select calls of the current request (bounded: SELECT_BOUND)
         self.log = []              # what the environment saw (for the oracle)
         self.next_sched_id = None
         self.bad = []              # protocol breaches of the code against the fake OS
@@ -321,6 +337,9 @@ class Env:
         return fd >= 2000 and (fd - 2000) % 2 == 0 and p < len(self.pipes) and self.pipes[p] > 0
 
     def select(self, rl, timeout):
+        self.selects += 1
+        if self.selects > SELECT_BOUND:
+            raise Livelock()
         deadline = None if timeout is None else self.clock + timeout
         while True:
             rs = [fd for fd in rl if self.ready(fd)]
@@ -397,8 +416,14 @@ class Env:
                 continue
             if observer:
                 observer.start(self, op[1])
+            self.selects = 0
             try:
                 r = self.inp.send(op[1])
+            except Livelock:
+                out.append("L")
+                if observer:
+                    observer.end(self, "livelock", None)
+                break
             except Deadlock:
                 out.append("B")
                 if observer:
@@ -600,7 +625,10 @@ class Ledger:
                 self.R += r
             elif isinstance(r, cevents.PasteEvent):
                 for k in r.events:
-                    self.R += k
+                    if isinstance(k, bytes):
+                        self.R += k
+                    else:
+                        self.fail("paste event holds %r, not a keypress" % (k,))
             elif isinstance(r, SEv):
                 pend = self.pending_sched()
                 mine = [s for s in pend if s[2] == r.id]
@@ -641,6 +669,10 @@ class Ledger:
                 seq = bytes(r.object)
                 if len(seq) >= 2 and seq[:-1] in cevents.KEYMAP_PREFIXES and seq[-1] >= 0x80:
                     fp = "D12"
+                # footprint D35: the decoder saw an ill-formed UTF-8 sequence in mid-stream: it starts with a byte >= 0x80, is
+                # not decodable and is not a truncated valid prefix (get_key would have waited for more: that is D15)
+                elif seq and seq[0] >= 0x80 and not cevents.decodable(seq, ENC) and not cevents.could_be_unfinished_char(seq, ENC):
+                    fp = "D35"
             self.fail("bytes lost, duplicated or reordered (%s): entered %d stream + %d unget bytes, returned %d, still held %d"
                       % ("request raised %s" % type(r).__name__ if how == "raised" else how, len(self.S), len(self.U),
                          len(self.R), len(h["u"]) + len(h["o"])), fp)
@@ -663,6 +695,8 @@ class Ledger:
             self.fail("scheduled events lost or duplicated")
         if self.sig_out + h["g"] != self.sig_in:
             self.fail("SIGINT events: %d delivered, %d returned, %d held" % (self.sig_in, self.sig_out, h["g"]))
+        if how == "livelock":
+            self.fail("the request called select more than %d times without returning (a descriptor that is never drained?)" % SELECT_BOUND)
         # -- a thread-safe callback that has completed interrupts the request: it may not time out / block with it pending
         stranded = [(k, e) for k, e in self.completed_pending() if k[0] == "i"]
         if stranded and not spurious and (how == "blocked" or (how == "returned" and r is None)):
@@ -819,6 +853,11 @@ def rand_case(r):
             apieces = cut(r, stream, nA)
     else:
         apieces = []
+    if apieces and r.random() < 0.04:
+        # arbitrary bytes (not text at all: a binary paste, line noise): bytes are bytes
+        k = r.randrange(len(apieces))
+        apieces[k] = bytes(r.choice([0x41, 0x62, 0x1b, 0x80, 0xbf, 0xc3, 0xe2, 0x82, 0xf0, 0x9f, 0xff, r.randrange(256)])
+                           for _ in range(r.randint(1, 6)))
     upieces = [rand_stream(r, r.randint(1, 4), d12) for _ in range(nU)]   # whole keypresses (what a foreign read leaves over)
     agenda, t, eid = [], 0, 0
     pend_writes, pend_done = [], []
@@ -881,6 +920,10 @@ def corpus():
              ops=[("d", 0), ("r", 10), ("r", 0), ("r", 0)], tag="corpus"),
         # D12 (C03's finding) seen from C08: Esc then a non-ASCII character available together
         dict(thr=8, wake=1, npipes=0, agenda=[(0, "A", "1bc3a9")], ops=[("d", 0), ("r", 0), ("r", 0), ("r", 0)], tag="D12"),
+        # D35: ill-formed UTF-8 in mid-stream: c3 then 'A' - the valid 'A' is lost with it
+        dict(thr=8, wake=1, npipes=0, agenda=[(0, "A", "c341")], ops=[("d", 0), ("r", 0), ("r", 0), ("r", 0)], tag="D35"),
+        dict(thr=8, wake=1, npipes=0, agenda=[(0, "A", "e28241")], ops=[("d", 0), ("r", 0), ("r", 0), ("r", 0)], tag="D35"),
+        dict(thr=0, wake=1, npipes=0, agenda=[(0, "A", "6162f09f984163")], ops=[("d", 0), ("r", 0), ("r", 0), ("r", 0)], tag="D35"),
         # D15 witness (also the Lean witness theorem C08_D15_witness)
         dict(thr=8, wake=1, npipes=0, agenda=[(0, "A", e[:4]), (1, "A", e[4:])], ops=[("r", None), ("r", None), ("r", 0)], tag="D15"),
         # D15 inside a paste: the whole paste is lost
@@ -955,6 +998,212 @@ def getkey_impl(c):
 
 # ------------------------------------------------------------------------------------------------
 
+
+# ------------------------------------------------------------------------------------------------
+# real OS: pty, select, wake-up fd, threads, signals (feeds only the oracle: not replayable)
+# ------------------------------------------------------------------------------------------------
+
+class _FdStream:
+    def __init__(self, fd):
+        self.fd = fd
+
+    def fileno(self):
+        return self.fd
+
+
+class _Alarm(BaseException):
+    pass
+
+
+def _guarded(seconds, fn):
+    """hard timeout for a scenario running in the main thread"""
+    def on_alarm(signum, frame):
+        raise _Alarm()
+    old = real_signal.signal(real_signal.SIGALRM, on_alarm)
+    real_signal.alarm(seconds)
+    try:
+        return fn()
+    except _Alarm:
+        return ["scenario did not finish within %d s (a request blocked although input was pending?)" % seconds]
+    finally:
+        real_signal.alarm(0)
+        real_signal.signal(real_signal.SIGALRM, old)
+
+
+def real_mixed(seed, sigint=True, in_thread=False):
+    """bytes from a writer thread, thread-safe events from another thread, a plain and a scheduled event, one real SIGINT;
+    every request goes through Input.send (ReplacedSigIntHandler, real select, real wake-up fd).  -> list of problems"""
+    import random
+    rnd = random.Random(seed)
+    problems = []
+    m, sl = real_os.openpty()
+    chunks = [bytes(rnd.choice(b"abcdefghij") for _ in range(rnd.randint(1, 3))) for _ in range(rnd.randint(3, 6))]
+    chunks.insert(rnd.randrange(len(chunks) + 1), bytes(rnd.choice(b"klmnopqrst") for _ in range(rnd.randint(12, 30))))   # a paste
+    n_ts = rnd.randint(2, 5)
+    want_bytes = b"".join(chunks)
+    got_bytes, got_ts, got_q, got_s, got_sig, pastes = bytearray(), [], [], [], 0, 0
+
+    def body():
+        nonlocal got_sig, pastes
+        inp = cinput.Input(in_stream=_FdStream(sl), keynames="bytes", sigint_event=sigint and not in_thread)
+        with inp:
+            ts_cb = inp.threadsafe_event_trigger(lambda id: Ev(id, "i0"))
+            q_cb = inp.event_trigger(lambda id: Ev(id, "q0"))
+            s_cb = inp.scheduled_event_trigger(lambda when: SEv(when, 7))
+            q_cb(id=100)
+            when = real_time.time() + 0.03
+            s_cb(when)
+
+            def writer():
+                for c in chunks:
+                    real_os.write(m, c)
+                    real_time.sleep(rnd.choice([0.0, 0.002, 0.01]))
+
+            def trigger():
+                for i in range(n_ts):
+                    ts_cb(id=i)
+                    real_time.sleep(rnd.choice([0.0, 0.003, 0.01]))
+
+            def killer():
+                real_time.sleep(0.02)
+                real_os.kill(real_os.getpid(), real_signal.SIGINT)
+            threads = [threading.Thread(target=writer), threading.Thread(target=trigger)]
+            if sigint and not in_thread:
+                threads.append(threading.Thread(target=killer))
+            first = next(inp)            # Input.__next__: blocks until the first thing arrives (the queued plain event)
+            results = [first]
+            for t in threads:
+                t.start()
+            deadline = real_time.time() + 4.0
+            try:
+                while real_time.time() < deadline:
+                    done = (bytes(got_bytes) == want_bytes and len(got_ts) == n_ts and got_q and got_s
+                            and (got_sig or not (sigint and not in_thread)))
+                    try:
+                        r = results.pop(0) if results else inp.send(0.05)
+                    except Exception as e:  # noqa: BLE001
+                        problems.append("request raised %s: %s" % (type(e).__name__, e))
+                        break
+                    now = real_time.time()
+                    if r is None:
+                        if done:
+                            break
+                        continue
+                    if isinstance(r, bytes):
+                        got_bytes.extend(r)
+                    elif isinstance(r, cevents.PasteEvent):
+                        pastes += 1
+                        for k in r.events:
+                            got_bytes.extend(k)
+                    elif isinstance(r, SEv):
+                        got_s.append(r.id)
+                        if now < r.when:
+                            problems.append("scheduled event returned %.4f s before its time" % (r.when - now))
+                    elif isinstance(r, Ev):
+                        (got_ts if r.kind == "i0" else got_q).append(r.id)
+                    elif isinstance(r, cevents.SigIntEvent):
+                        got_sig += 1
+                    else:
+                        problems.append("unknown value %r" % (r,))
+            finally:
+                for t in threads:      # inside the context: a late SIGINT still meets the Input's handler
+                    t.join(5)
+        if bytes(got_bytes) != want_bytes:
+            problems.append("bytes written %r, keypresses returned %r" % (want_bytes, bytes(got_bytes)))
+        if got_ts != list(range(n_ts)):
+            problems.append("thread-safe events triggered %r, returned %r" % (list(range(n_ts)), got_ts))
+        if got_q != [100]:
+            problems.append("event_trigger event returned %r times" % (got_q,))
+        if got_s != [7]:
+            problems.append("scheduled event returned %r" % (got_s,))
+        if sigint and not in_thread and got_sig != 1:
+            problems.append("one SIGINT delivered, %d SigIntEvents returned" % got_sig)
+        return problems
+    try:
+        if in_thread:
+            box = []
+            th = threading.Thread(target=lambda: box.append(body()), daemon=True)
+            th.start()
+            th.join(10)
+            return box[0] if box else ["scenario in a non-main thread did not finish within 10 s"]
+        return _guarded(10, body)
+    except KeyboardInterrupt:
+        return ["KeyboardInterrupt escaped although sigint_event=True"]
+    finally:
+        for fd in (m, sl):
+            try:
+                real_os.close(fd)
+            except OSError:
+                pass
+
+
+def real_keyboard_interrupt():
+    """sigint_event=False: a real SIGINT while send() is blocked in select raises KeyboardInterrupt; nothing is lost"""
+    m, sl = real_os.openpty()
+
+    def body():
+        problems = []
+        inp = cinput.Input(in_stream=_FdStream(sl), keynames="bytes", sigint_event=False)
+        with inp:
+            th = threading.Timer(0.03, lambda: real_os.kill(real_os.getpid(), real_signal.SIGINT))
+            th.start()
+            try:
+                r = inp.send(1.0)
+                problems.append("send returned %r instead of raising KeyboardInterrupt" % (r,))
+            except KeyboardInterrupt:
+                pass
+            finally:
+                try:
+                    th.join(2)
+                except KeyboardInterrupt:
+                    pass
+            real_os.write(m, b"xy")
+            got = [inp.send(0.5), inp.send(0.5), inp.send(0)]
+            if got != [b"x", b"y", None]:
+                problems.append("after the KeyboardInterrupt: wrote b'xy', requests returned %r" % (got,))
+        return problems
+    try:
+        return _guarded(10, body)
+    finally:
+        real_os.close(m)
+        real_os.close(sl)
+
+
+def real_eof():
+    """end of file on the stream (a pipe whose writer closed): os.read returns b'' - the request returns None at once"""
+    r, w = real_os.pipe()
+    try:
+        inp = cinput.Input(in_stream=_FdStream(r), keynames="bytes")
+        real_os.write(w, b"ab")
+        real_os.close(w)
+        t0 = real_time.time()
+        got = [inp.send(0.5), inp.send(0.5), inp.send(0.5), inp.send(0.5)]
+        problems = []
+        if got != [b"a", b"b", None, None]:
+            problems.append("pipe with b'ab' then EOF: requests returned %r" % (got,))
+        if real_time.time() - t0 > 0.4:
+            problems.append("requests at EOF waited")
+        return problems
+    finally:
+        real_os.close(r)
+
+
+def real_checks(ctx):
+    n = 20 if ctx.thorough else 3
+    scen = [("mixed sigint_event=True seed %d" % i, lambda i=i: real_mixed(ctx.seed * 1000 + i)) for i in range(n)]
+    scen += [("mixed in a non-main thread seed %d" % i, lambda i=i: real_mixed(ctx.seed * 1000 + 500 + i, in_thread=True))
+             for i in range(max(1, n // 4))]
+    scen += [("KeyboardInterrupt during a blocked request", real_keyboard_interrupt), ("EOF", real_eof)]
+    for name, fn in scen:
+        try:
+            probs = fn()
+        except Exception as e:  # noqa: BLE001
+            probs = ["scenario raised %s: %s" % (type(e).__name__, e)]
+        case = dict(real_os_scenario=name)
+        ctx.count(case, nontrivial=True, tag="real-os")
+        for w in probs:
+            ctx.violation("real OS (%s): %s" % (name, w), case, None)
+
 def footprint(c, what):
     return None
 
@@ -992,6 +1241,7 @@ def run_cases(ctx, cases, tie=True):
 
 def check(ctx):
     run_cases(ctx, mk_cases(ctx))
+    real_checks(ctx)        # fakes are uninstalled here: real select / os / time / Nonblocking
     # the witness of the open finding must still fail on the real code (else the finding is stale)
     install()
     try:
